@@ -344,6 +344,9 @@ pub fn run(ctx: &Ctx) -> CheckResult {
             c2.push(Cfg::p2(Kind::SlowStoch, n, 2));
             c2.push(Cfg::p1(Kind::Atr, n));
             c2.push(Cfg::pm(Kind::Kc, n, 2.0));
+            // negative / zero multipliers are accepted as given (C11): both paths must treat them alike
+            c2.push(Cfg::pm(Kind::Kc, n, -2.0));
+            c2.push(Cfg::pm(Kind::Kc, n, 0.0));
         }
         c2.push(Cfg::p0(Kind::Tr));
         // second alphabet: prices one ulp apart and in a 1e-17 unit (spreads below f64::EPSILON)
@@ -435,7 +438,7 @@ pub fn run(ctx: &Ctx) -> CheckResult {
     }
     res.extra.insert("documented_fields".into(), json!(ALL_KINDS.iter().map(|k| (k.name().to_string(), format!("{:?}", documented(*k)))).collect::<std::collections::BTreeMap<_, _>>()));
     res.rule = "case = (configuration, bar sequence): outputs of Next<&T> on bars whose five fields vary independently compared (1e-12 relative) with (i) Next<f64> on the documented field, (iii) the same sequence with every undocumented field replaced (all at once finite / NaN, and one at a time), (iv) a second implementor storing integers, and DataItem on valid bars; (ii) one-price bars vs scalar path; non-trivial = perturbation comparisons".into();
-    res.bounds = format!("all 22 indicators, periods {{1,3}}; all 10^{depth} sequences over B_free (incl. zero and negative closes, highs, volumes); three 160-bar streams of quiet closes (100*(1 +- a few 1e-6)) for every close/low/high-reading indicator incl. the documented defaults; one-price: all 5^{} scalar sequences over {{1,2.5,0.1,7,-3}} and over {{1, 0.75, 0.75+1ulp, 2e-17, 3e-17}} for FAST_STOCH/SLOW_STOCH/TR/ATR/KC n in {{1,2,3,5}}, and every assignment of {{scalar, one-price bar}} to the positions of all streams two steps shorter (both paths mixed on one instance); DataItem: all 12^{} sequences of valid bars (incl. open/close within 1e-9 of an extreme)", if th { 7 } else { 6 }, if th { 5 } else { 4 });
+    res.bounds = format!("all 22 indicators, periods {{1,3}}; all 10^{depth} sequences over B_free (incl. zero and negative closes, highs, volumes); three 160-bar streams of quiet closes (100*(1 +- a few 1e-6)) for every close/low/high-reading indicator incl. the documented defaults; one-price: all 5^{} scalar sequences over {{1,2.5,0.1,7,-3}} and over {{1, 0.75, 0.75+1ulp, 2e-17, 3e-17}} for FAST_STOCH/SLOW_STOCH/TR/ATR/KC (multipliers 2, -2, 0) n in {{1,2,3,5}}, and every assignment of {{scalar, one-price bar}} to the positions of all streams two steps shorter (both paths mixed on one instance); DataItem: all 12^{} sequences of valid bars (incl. open/close within 1e-9 of an extreme)", if th { 7 } else { 6 }, if th { 5 } else { 4 });
     res.assumptions = vec!["minimal-trait user types (CloseOnly, Hlc, ...) are compiled and run by the separate /verif/surface crate as part of this check".into()];
     res
 }
